@@ -2065,6 +2065,15 @@ class BaseInterpreter(Generic[TContext, TEvent]):
         }
 
         for state in states_to_enter:
+            # 🛑 `stop()` may land in the MIDDLE of this macrostep - called by
+            #    one of its own actions, by a plugin hook, or by another task
+            #    while a coroutine action is suspended. A stopped interpreter
+            #    enters nothing further: the states entered here would have
+            #    their `after` timers armed and their services started AFTER
+            #    `stop()` had released everything, with nothing left to cancel
+            #    them.
+            if self.status == "stopped":
+                return
             self._active_state_nodes.add(state)
             logger.debug("➡️  Entering state: '%s'.", state.id)
 
@@ -2962,6 +2971,15 @@ class BaseInterpreter(Generic[TContext, TEvent]):
         Args:
             state (StateNode): The state being entered.
         """
+        # 🛑 Nothing is armed on an interpreter that has been stopped.
+        #    `stop()` can land in the middle of a macrostep (see
+        #    `_enter_states`); a timer armed or a service started behind it
+        #    is never cancelled - `stop()` has already returned, or is past
+        #    its `cancel_all()` snapshot - so it would outlive the interpreter.
+        #    This also covers the re-arming done by a rollback.
+        if self.status == "stopped":
+            return
+
         # 🕒 Schedule `after` timers.
         for delay_ms, transitions in state.after.items():
             # 🏷️ Symbolic delays resolve through MachineLogic.delays.
